@@ -78,7 +78,45 @@ func BuildMSM(t *rt.Tape, sp MSMSpec) []byte {
 		}
 		put(1, v)
 	}
-	if sp.RandBody && t != nil {
+	if sp.RandBody && t != nil && sp.BodyBits < 0 {
+		// field-aware body: every field drawn with a bias to the special values
+		// (zero, the "invalid" marker = minimum of the width, maximum, all ones)
+		mode := t.SW(3, 2, 1) // independent fields, mostly-special fields, everything invalid
+		for _, fl := range bodyFields(sp.Type, nsat, ncell) {
+			for i := 0; i < fl[0]; i++ {
+				w := uint(fl[1])
+				var v uint64
+				k := 0
+				switch mode {
+				case 0:
+					k = t.SW(6, 1, 1, 1, 1)
+				case 1:
+					k = t.SW(1, 2, 3, 1, 1)
+				default:
+					k = 2
+				}
+				switch k {
+				case 0:
+					v = uint64(t.S(1 << min(w, 24)))
+					if w > 24 {
+						v = v<<(w-24) | uint64(t.S(1<<(w-24)))
+					}
+				case 1:
+					v = 0
+				case 2:
+					v = 1 << (w - 1) // minimum of a signed field / top bit of an unsigned one
+					if w == 8 {
+						v = 0xff // the whole-millisecond "invalid" marker
+					}
+				case 3:
+					v = 1<<(w-1) - 1
+				default:
+					v = 1<<w - 1
+				}
+				put(int(w), v)
+			}
+		}
+	} else if sp.RandBody && t != nil {
 		for b := 0; b < body; b += 8 {
 			n := 8
 			if body-b < 8 {
@@ -88,6 +126,14 @@ func BuildMSM(t *rt.Tape, sp MSMSpec) []byte {
 		}
 	}
 	return buf
+}
+
+// bodyFields lists (count, width) of the field-major arrays that follow the header.
+func bodyFields(typ, nsat, ncell int) [][2]int {
+	if IsMSM7(typ) {
+		return [][2]int{{nsat, 8}, {nsat, 4}, {nsat, 10}, {nsat, 14}, {ncell, 20}, {ncell, 24}, {ncell, 10}, {ncell, 1}, {ncell, 10}, {ncell, 15}}
+	}
+	return [][2]int{{nsat, 8}, {nsat, 10}, {ncell, 15}, {ncell, 22}, {ncell, 4}, {ncell, 1}, {ncell, 6}}
 }
 
 // GenMSMSpec draws a well-formed MSM message shape (at most 64 cells).
